@@ -179,6 +179,18 @@ theorem Tr.shutdownWr {tr n ss cs u nr sp al} (h : Tr tr n ss cs u nr sp al) {k 
     by_cases h : x.st = .disconnected <;> simp [h]
   simp [specStep, this]
 
+/-- the callback reporting connection `k` reads `connection()` and finds `k` -/
+theorem Tr.query {tr n ss cs u nr sp al} (h : Tr tr n ss cs u nr sp al) {k : Nat} {x : ConnRec}
+    (hk : ss[k]? = some .handedOver) (hx : findIn cs k = some x) (hd : x.destroyed = false) :
+    Tr (tr ++ [.query k (some k)]) n ss cs u nr sp al := by
+  obtain ⟨s, hs, hr⟩ := h
+  refine ⟨s, ?_, hr⟩
+  rw [scan_snoc, hs]
+  have : s.phases[k]? = some .up ∨ s.phases[k]? = some .down := by
+    rw [hr.ph k]; unfold phaseAt; rw [hk]; simp only; rw [hx]; simp [hd]
+    by_cases h : x.st = .disconnected <;> simp [h]
+  simp [specStep, this]
+
 /-- `~TcpConnection` of a connection that is down -/
 theorem Tr.connClosed {tr n ss cs u nr sp al} (h : Tr tr n ss cs u nr sp al) {k : Nat} {x x' : ConnRec} {cs' : List ConnRec}
     (hk : ss[k]? = some .handedOver) (hx : findIn cs k = some x) (hd : x.destroyed = false) (hst : x.st = .disconnected)
